@@ -322,3 +322,21 @@ fn c06_reregister_hands_age_to_list() {
     kani::cover!(!passes);
     core::mem::forget(bmca);
 }
+
+impl ForeignMasterList {
+    pub(crate) fn verif_rec_step_age(&mut self, step: Duration) { verif_fm::rec_note_step(step); }
+}
+/// Bmca::step_age(step) is ForeignMasterList::step_age(step), once
+#[kani::proof]
+#[kani::unwind(9)]
+#[kani::stub(ForeignMasterList::step_age, ForeignMasterList::verif_rec_step_age)]
+fn c06_bmca_step_age_hands_step_to_list() {
+    let own = any_port_identity();
+    let mut bmca = Bmca::new(NdAccept(kani::any()), any_time_interval(), own);
+    let step: i128 = kani::any();
+    kani::assume(step >= 0 && step < (1i128 << 100));
+    verif_fm::rec_reset();
+    bmca.step_age(verif_fm::dur_from_bits(step));
+    assert!(verif_fm::rec_calls() == 1 && verif_fm::rec_step() == Some(step));
+    core::mem::forget(bmca);
+}
